@@ -155,3 +155,114 @@ def echo_mut(*a, **k):
 
 def falsy(x=None, **k):
     return {0: None, 1: '', 2: 0, 3: [], 4: b'y' * (1 << 20)}.get(x, x)
+
+
+# ---- C02: direct-call equivalence -----------------------------------------------------------------------------------------
+class Point:
+    def __init__(self, x, y):
+        self.x, self.y = x, y
+
+    def __eq__(self, o):
+        return type(o) is Point and (o.x, o.y) == (self.x, self.y)
+
+    def __repr__(self):
+        return 'Point(%r, %r)' % (self.x, self.y)
+
+
+class CustomErr(Exception):
+    pass
+
+
+VALUES = {
+    'none': lambda: None, 'zero': lambda: 0, 'empty-str': lambda: '', 'empty-list': lambda: [], 'false': lambda: False,
+    'nested': lambda: {'a': [1, (2, 3), {'b': {4}}], 'c': None}, 'obj': lambda: Point(1, [2]),
+    'b0': lambda: b'', 'b1': lambda: b'z', 'b64k': lambda: b'k' * 65536, 'b64k1': lambda: b'k' * 65537,
+    'b208k1': lambda: b'q' * 212993, 'b1m': lambda: b'm' * (1 << 20), 'b4m': lambda: b'M' * (4 << 20),
+}
+EXCS = {
+    've0': lambda: ValueError(), 've2': lambda: ValueError('m', 2), 'ke': lambda: KeyError('k'), 'custom': lambda: CustomErr('x', 3),
+    'oserr': lambda: OSError(2, 'nope'),
+}
+
+
+def _note(count_file):
+    if count_file:
+        with open(count_file, 'a') as f:
+            f.write('x\n')
+
+
+def ret_value(which, count_file=None):
+    _note(count_file)
+    return VALUES[which]()
+
+
+def raise_exc(which, count_file=None):
+    _note(count_file)
+    raise EXCS[which]()
+
+
+def echo_args(*a, count_file=None, **k):
+    _note(count_file)
+    return [list(a), sorted([kk, vv] for kk, vv in k.items())]
+
+
+# ---- C17 / C04 / C09: slow, stubborn and blocking targets -----------------------------------------------------------------
+def slow_echo(x, delay=0.1, size=0):
+    import time as _t
+    if x == 'POISON':
+        raise ValueError('poisoned')
+    if x == 'STUBBORN':
+        while True:
+            try:
+                while True:
+                    _t.sleep(0.002)
+            except BaseException:  # noqa
+                pass
+    _t.sleep(delay)
+    if size:
+        return [x, 'p' * size]
+    return [x]
+
+
+def stubborn(x=None, ready_file=None):
+    """Swallows every exception and keeps going: cannot be stopped gracefully."""
+    import time as _t
+    if ready_file:
+        with open(ready_file, 'w') as f:
+            f.write('r')
+    while True:
+        try:
+            while True:
+                _t.sleep(0.002)
+        except BaseException:  # noqa
+            pass
+
+
+def cooperative(x=None, ready_file=None):
+    import time as _t
+    if ready_file:
+        with open(ready_file, 'w') as f:
+            f.write('r')
+    while True:
+        _t.sleep(0.002)
+
+
+def long_sleep(x=None, ready_file=None):
+    import time as _t
+    if ready_file:
+        with open(ready_file, 'w') as f:
+            f.write('r')
+    _t.sleep(1000)
+
+
+def gil_hog(x=None, ready_file=None):
+    """Holds the interpreter lock inside a C call: no Python thread of this process can run."""
+    import ctypes
+    if ready_file:
+        with open(ready_file, 'w') as f:
+            f.write('r')
+    ctypes.PyDLL(None).sleep(1000)
+
+
+def quick_ret(x=None, ready_file=None):
+    return 5
